@@ -142,7 +142,7 @@ def gen_case(rng, tier):
         temp, eps = "0", rng.choice(["0", "1/20", "1/20"])
         alpha = rng.choice(["1/8", "1/2", "1"])
         episodes = rng.choice([3, 5, 8])
-    soft = (not ties) and rng.random() < .1
+    soft = (not ties) and rng.random() < .16
     if soft:
         # softmax-expectation family: expected SARSA whose target really is a softmax-weighted average (moderate
         # temperature, eps 0 or small, step size > 0, unequal rows, several multi-step episodes): distinguishes the
@@ -155,7 +155,7 @@ def gen_case(rng, tier):
         iq = {"kind": "table", "table": [[str(F(rng.randint(-16, 16), 4)) for _ in range(nA)] for _ in range(n)]}
         temp, eps = rng.choice(["1/2", "2"]), rng.choice(["0", "0", "1/20"])
         alpha = rng.choice(["1/8", "1/2", "1"])
-        if rng.random() < .35:
+        if rng.random() < .3:
             # mixture weight 2^-27 / 2^-30 at temperature 0: below np.isclose's atol 1e-8, yet it moves the target
             # by ~1e-9 * (max - mean), far above the 1e-12 fold tolerance
             temp, eps, alpha = "0", str(F(1, 2**rng.choice([27, 30]))), rng.choice(["1/2", "1"])
@@ -199,6 +199,7 @@ def gen_case(rng, tier):
         # msdm's default step size); the model gets the rationals, msdm their nearest doubles, rewards are compared
         # bit-exactly with the doubles msdm was given
         family = "decimal"
+        learner = rng.choice(["ql", "sarsa", "esarsa", "dq"])
         m["gamma"] = rng.choice(["9/10", "19/20", "99/100", "2/3"])
         alpha = rng.choice(["1/10", "1/10", "3/10", "1/3", "7/10"])
         eps = rng.choice(["1/10", "1/20", "1/3", "0"])
@@ -513,6 +514,13 @@ def annotate(case, res):
 # ---------------------------------------------------------------------------------------------
 # independent exact oracle (violation search only): the update rules on Fractions
 # ---------------------------------------------------------------------------------------------
+def oracle_tol(case):
+    """the oracle is exact (Fractions) except for the softmax of expected SARSA at a temperature (Python floats):
+    same relative bounds as the Coq comparison, one decade looser, so that it can name what Coq rejects"""
+    soft = case["learner"] == "esarsa" and F(case["temp"]) != 0
+    return F(1, 10**8) if soft else F(1, 10**11)
+
+
 def oracle(case, res):
     """folds the published update rules over the recorded experience; returns
     (tables, first_bad_step or None, clause or None)"""
@@ -585,7 +593,7 @@ def oracle(case, res):
                 exp_after = [t1[s][a]]
             got = [vlib.frac(x) for x in st.get("after", []) if not isinstance(x, str)]
             for gx, ex in zip(got if len(got) == len(exp_after) else [], exp_after):
-                if abs(gx - ex) > F(1, 10**8) * (1 + abs(ex)):
+                if abs(gx - ex) > oracle_tol(case) * (1 + abs(ex)):
                     where.update({"written": [str(x) for x in got], "update_rule_gives": [str(x) for x in exp_after]})
                     return None, where, "entry written at a step is not the update rule applied to the table"
             idx += 1
@@ -664,7 +672,7 @@ def search_failing(case, res, impl_rows, impl_pol):
         if set(t[s]) != set(impl_rows[s]):
             return "returned row does not span the available actions", {"state": s}
         for a in t[s]:
-            if abs(t[s][a] - impl_rows[s][a]) > F(1, 10**8) * (1 + abs(t[s][a])):
+            if abs(t[s][a] - impl_rows[s][a]) > oracle_tol(case) * (1 + abs(t[s][a])):
                 return "returned Q-value is not the update rule folded over the experience", \
                        {"state": s, "action": a, "returned": str(impl_rows[s][a]), "fold": str(t[s][a])}
     # policy w.r.t. the returned table
